@@ -103,7 +103,7 @@ pub fn c05_inits() -> Vec<Init> {
 /// (the fourth is the first in another letter case: to the model simply another name)
 const KEYS: [&str; 4] = ["A", "B", "C", "a"];
 /// thorough: one more key with every punctuation class a field name may contain
-const KEYS_T: [&str; 5] = ["A", "B", "C", "a", "X-y#1"];
+const KEYS_T: [&str; 4] = ["A", "B", "a", "X-y#1"];
 
 /// Initial documents from the document generator: every layout with at most one deviation (thorough: two on the smaller
 /// skeleton) - comments of every shape, colon spacing, continuation lines, indentation, separators, missing final newline.
